@@ -364,7 +364,7 @@ def returned_arrays_check(r, nhist):
     """arrays returned earlier are never changed by later calls (on the pulse, its copies, as inputs)"""
     bad, n = [], 0
     for h in range(nhist):
-        wk = h % len(c07.WORLDS)
+        wk = c07.PLAIN[h % len(c07.PLAIN)]
         w = c07.world(wk)
         H = c07.random_history(r, wk, maxlen=10, p_fail=0.1)
         objs = [w.make()]
@@ -439,7 +439,7 @@ def deep_fault_check(r, nhist):
     fresh pulses"""
     bad, n = [], 0
     for h in range(nhist):
-        wk = h % len(c07.WORLDS)
+        wk = c07.PLAIN[h % len(c07.PLAIN)]
         w = c07.world(wk)
         alpha = [o for o in cs.alphabet(w) if cs.op_ok(o)]
         prefix = [c for c in c07.random_history(r, wk, maxlen=4, p_fail=0.0) if c[0] != 'fail']
@@ -505,7 +505,7 @@ def run(ctx):
     items = []
     nrand = 1200 if ctx.thorough else 220
     for n in range(nrand):
-        wk = n % len(c07.WORLDS)
+        wk = c07.PLAIN[n % len(c07.PLAIN)]
         items.append((wk, failure_history(r, wk), False))
     for wk in ((0, 1, 2) if ctx.thorough else (0,)):
         for H in systematic_failures(wk):
@@ -664,7 +664,7 @@ def search(ctx, broken):
     if out:
         return out
     for n in range(1500):
-        wk = n % len(c07.WORLDS)
+        wk = c07.PLAIN[n % len(c07.PLAIN)]
         H = failure_history(r, wk, maxlen=10)
         if not c07.history_ok(H):
             continue
